@@ -15,6 +15,8 @@ pkgdir_of() { # target directory from the package clause
     auto|auto_test) echo auto;; decoration|decoration_test) echo texttable/decoration;; *) echo .;;
   esac; }
 tags=""
+# a demonstration of a data race needs the race detector: its author says so in the note
+race=""; grep -qs -- "go test -race" "$d"/AGENT_README.md && race="-race"
 run_demo() { # returns 0 if demo passes
   local rc=0
   if ls "$d"/demo*_test.go >/dev/null 2>&1; then
@@ -23,7 +25,7 @@ run_demo() { # returns 0 if demo passes
       grep -q 'go:build verif' "$f" && tags="-tags verif"
     done
     for t in $(for f in "$d"/demo*_test.go; do pkgdir_of "$f"; done | sort -u); do
-      ( cd "$wt/$t" && go test $tags -count=1 -run 'Demo|Mut|C[0-9][0-9]|Stress|Seed' . >/dev/null 2>&1 ) || rc=1
+      ( cd "$wt/$t" && go test $tags $race -count=1 -run 'Demo|Mut|C[0-9][0-9]|Stress|Seed' . >/dev/null 2>&1 ) || rc=1
     done
     for f in "$d"/demo*_test.go; do rm -f "$wt/$(pkgdir_of "$f")/zz_$(basename "$f")"; done
   elif [ -f "$d/demo/main.go" ]; then
